@@ -58,6 +58,15 @@ class C11(PropCheck):
             if info.get("v2_error"):
                 e = acc.setdefault("v2_errors", {})
                 e[info["v2_error"]] = e.get(info["v2_error"], 0) + 1
+            if info.get("v2_ok") and info.get("v2_stochastic"):
+                b = acc.setdefault("v2_stochastic_branch", {"runs": 0, "with_dissipation": 0, "with_reps_gt_1": 0,
+                                                            "dissipation_and_reps_gt_1": 0, "reference_errors": 0})
+                b["runs"] += 1
+                gt1 = any(r > 1 for r in info.get("stoch_reps", []))
+                b["with_dissipation"] += bool(info.get("v2_dissipative"))
+                b["with_reps_gt_1"] += gt1
+                b["dissipation_and_reps_gt_1"] += bool(info.get("v2_dissipative")) and gt1
+                b["reference_errors"] += "stoch_ref_error" in info
             if "v2_state_diff" in info:
                 acc["max_v2_state_diff_ok"] = max(acc.get("max_v2_state_diff_ok", 0.0),
                                                   info["v2_state_diff"] if info["v2_state_diff"] <= c11_run.TOL_STATE else 0.0)
